@@ -559,8 +559,8 @@ theorem reverseP_ok (a : PLoc) (ha : WFP a) : okReverse a (ans (reverseP a)) = t
   | compound la => exact reverse_compound la par hwf (fun n hn => hbd n hn)
 
 /-- union_preserve_overlaps: the multiset of covered positions is the sum of the operands'; refused for EmptyLocation
-    operands, different strands, incompatible parents (outside the one-sided corner F-C19j) -/
-theorem unionPreserveP_ok (a b : PLoc) (ha : WFP a) (hb : WFP b) (hj : ¬ OneSidedParent a b) :
+    operands, different strands, incompatible parents (two-sided test since the repair of F-C19j) -/
+theorem unionPreserveP_ok (a b : PLoc) (ha : WFP a) (hb : WFP b) :
     okUnionPreserve a b (ans (unionPreserveP a b)) = true := by
   obtain ⟨la, pa⟩ := a
   obtain ⟨lb, pb⟩ := b
@@ -573,7 +573,7 @@ theorem unionPreserveP_ok (a b : PLoc) (ha : WFP a) (hb : WFP b) (hj : ¬ OneSid
       let sa ← locStrand la
       let sb ← locStrand lb
       if sa ≠ sb then throw .InvalidStrand
-      if !pa.isEmpty then requireParentsEq pa pb
+      if !pa.isEmpty || !pb.isEmpty then requireParentsEq pa pb
       let c ← mkCompoundP (locBlocks la ++ locBlocks lb) sa pa
       optimizeBlocksP c) := by
     cases la with
@@ -601,12 +601,8 @@ theorem unionPreserveP_ok (a b : PLoc) (ha : WFP a) (hb : WFP b) (hj : ¬ OneSid
   have hse : strandEq la lb = true := by simp [strandEq, hss, hss']
   cases hsp : sameParent pa pb with
   | false =>
-    have hpa : pa ≠ [] := by
-      intro h
-      subst h
-      rw [sameParent_nil_left] at hsp
-      exact hj ⟨rfl, by intro h; subst h; simp at hsp⟩
-    have hpe : pa.isEmpty = false := by simpa using hpa
+    have hpe : (!pa.isEmpty || !pb.isEmpty) = true := by
+      cases pa <;> cases pb <;> simp_all [sameParent]
     simp [okUnionPreserve, unionRefused, hsp, hpe, requireParentsEq_eq]
     rfl
   | true =>
@@ -660,9 +656,7 @@ theorem unionPreserveP_ok (a b : PLoc) (ha : WFP a) (hb : WFP b) (hj : ¬ OneSid
 example : WFP ((.compound ⟨[(0, 2), (2, 2), (3, 5)], .minus⟩), [(some "chrA", none, some ['A','C','G','T','A'])]) := by
   decide
 
-example : WFP ((.single (1, 4) .minus), [(some "chrA", none, some ['A','C','G','T','A'])]) ∧
-    ¬ OneSidedParent ((.compound ⟨[(0, 2), (2, 2), (3, 5)], .minus⟩), [(some "chrA", none, some ['A','C','G','T','A'])])
-      ((.single (1, 4) .minus), [(some "chrA", none, some ['A','C','G','T','A'])]) := by
+example : WFP ((.single (1, 4) .minus), [(some "chrA", none, some ['A','C','G','T','A'])]) := by
   decide
 
 end BioCantor.Proofs
